@@ -6,8 +6,10 @@ import Babylon.Wire.Codec
 
     type <id> <type-expr>                 register a type under an id            -> ok
     enc  <id> <value>                     size + serialize                       -> ok <size> <hex|->
+    encu <id> <value>                     like enc, the bytes printed sorted (types with unordered containers)
     enc2 <id> <value1> <value2>           serialize value1, mutate the same object to value2,
                                           serialize again (the model has no caches: = enc value2)
+    rt   <id> <value> <pres>              serialize, then parse through <pres> into a fresh object
     dec  <id> <hex|-> <pres>              parse into a fresh object              -> ok <value> | fail | noret
     deci <id> <value> <hex|-> <pres>      parse into an object holding <value>   -> ok <value> | fail | noret
 
@@ -15,7 +17,7 @@ import Babylon.Wire.Codec
                 map(K,V) uptr(T) sptr(T) agg(<num>:T=<default>,…) aggb(…)   (aggb: first entry is the base class)
     value:      decimal (negative for signed kinds; raw bit pattern for f32/f64), x<hex> string,
                 [v,…] sequence, [k:v,…] map, ~ null, &v pointer, (v,…) aggregate members in declaration order
-    pres:       f | fL<n> | s<chunk> | s<chunk>L<n>      (array-backed / stream-backed, optional outer PushLimit)
+    pres:       f | g | fL<n> | s<chunk> | s<chunk>L<n>  (array-backed (g: via std::string) / stream-backed, optional outer PushLimit)
     Sets and maps are printed sorted by the text of their elements. -/
 open Babylon.Core Babylon.Wire
 
@@ -172,9 +174,15 @@ partial def showRec (fs : Fields) (v : Val) : List String :=
   | _, _ => []
 end
 
+def insertByte (b : UInt8) : Bytes → Bytes
+  | [] => [b]
+  | h :: t => if b ≤ h then b :: h :: t else h :: insertByte b t
+/-- `encu`: bytes printed sorted (unordered containers iterate in an unspecified order) -/
+def sortBytes (l : Bytes) : Bytes := l.foldl (fun acc b => insertByte b acc) []
+
 def presP : P Pres := do
   let c ← next
-  let flat ← (if c == 'f' then pure true else if c == 's' then pure false else failure)
+  let flat ← (if c == 'f' || c == 'g' then pure true else if c == 's' then pure false else failure)
   if !flat then let _ ← natP     -- chunk size: the model covers every chunking below 10 bytes alike
   let outer ← (do if (← tryChar 'L') then pure (some (← natP)) else pure none)
   pure { flat := flat, outer := outer }
@@ -203,12 +211,24 @@ def step (s : DSt) (line : String) : DSt × String :=
       | some x => (s, s!"ok {size t x} {hexOrDash (encode t x)}")
       | none => (s, "bad-value")
     | none => (s, "bad-id")
+  | ["encu", id, v] =>
+    match s.types.lookup id with
+    | some t => match runP (valP t) v with
+      | some x => (s, s!"ok {size t x} {hexOrDash (sortBytes (encode t x))}")
+      | none => (s, "bad-value")
+    | none => (s, "bad-id")
   | ["enc2", id, _, v] =>
     match s.types.lookup id with
     | some t => match runP (valP t) v with
       | some x => (s, s!"ok {size t x} {hexOrDash (encode t x)}")
       | none => (s, "bad-value")
     | none => (s, "bad-id")
+  | ["rt", id, v, p] =>
+    match s.types.lookup id, runP presP p with
+    | some t, some pr => match runP (valP t) v with
+      | some x => (s, showRes t (parse s.cfg t pr (encode t x) (dflt t)))
+      | none => (s, "bad-value")
+    | _, _ => (s, "bad-op")
   | ["dec", id, h, p] =>
     match s.types.lookup id, bytesArg h, runP presP p with
     | some t, some b, some pr => (s, showRes t (parse s.cfg t pr b (dflt t)))
